@@ -72,12 +72,19 @@ class Stream:
         return self.ops
 
 
-def rand_token(r, lo, hi):
-    return bytes(r.choice(TOKEN) for _ in range(r.range(lo, hi)))
+_TABLES = {}
 
 
 def rand_text(r, lo, hi, alphabet=PRINT):
-    return bytes(r.choice(alphabet) for _ in range(r.range(lo, hi)))
+    """random string over `alphabet` (one PRNG step per 8 characters)"""
+    t = _TABLES.get(alphabet)
+    if t is None:
+        t = _TABLES[alphabet] = bytes(alphabet[i % len(alphabet)] for i in range(256))
+    return r.bytes(r.range(lo, hi)).translate(t)
+
+
+def rand_token(r, lo, hi):
+    return rand_text(r, lo, hi, TOKEN)
 
 
 def rand_ows(r):
@@ -202,17 +209,23 @@ def status_line(r, status, reason=None):
     return b"HTTP/1.%d %d" % (minor, status) + reason
 
 
-def seg_choice(r, total, tier):
+def seg_choice(r, total, tier, hdr=None):
+    """hdr: size of the largest header block (the model re-reads the buffered part at every wait, so very fine
+    segmentation of very large header blocks is left out: segment >= hdr^2 / 2e7)"""
+    hdr = min(total, 70000) if hdr is None else hdr
+    fine = max(1, hdr * hdr // 20000000)
     k = r.below(100)
     if k < 12:
         return "whole"
     if k < 30 and total <= 2500:
         return "bytewise"
+    if k < 30 and fine > 1:
+        return str(fine)
     if k < 45:
         # boundary-directed: pieces which put the reader's buffer end at interesting places
         base = r.choice([RBUF - 1, RBUF, RBUF + 1, 2 * RBUF, RBUF // 2])
         return ",".join(str(x) for x in [base, r.range(1, 3), r.range(1, 9000)])
-    lo_cap = 1 if total <= 6000 else max(1, total // 3000)
+    lo_cap = max(fine, 1 if total <= 6000 else max(1, total // 3000))
     n = r.range(1, 12)
     hi = r.choice([2, 5, 40, 700, 5000, 70000])
     sizes = [r.range(lo_cap, max(lo_cap, hi)) for _ in range(n)]
@@ -321,13 +334,29 @@ def one_wf(r, tier, directed=None):
     elif framing == "chunked":
         headers.insert(fpos, (b"Transfer-Encoding", rand_ows(r), r.choice([b"chunked", b"chunked", b"gzip, chunked"]), rand_ows(r)))
     first = status_line(r, status)
+    # the client rejects header blocks above MAXHDR: a well-formed response stays below
+    cap = 30000 if ninterim else 60000
+    total = block_len(first, headers)
+    if total > cap:
+        drop = set()
+        for i in sorted(range(len(headers)), key=lambda i: -len(headers[i][2])):
+            if total <= cap:
+                break
+            if headers[i][0][:1] == b"X":
+                n, a, v, b = headers[i]
+                total -= len(n) + 1 + len(a) + len(v) + len(b) + 2
+                drop.add(i)
+        headers = [h for i, h in enumerate(headers) if i not in drop]
+        nh -= len(drop)
     final_len = block_len(first, headers)
+    hdrmax = final_len
     for i in range(ninterim):
         ih = gen_headers(r, r.range(0, 3))
         il = status_line(r, r.weighted([(100, 4), (r.range(101, 199), 2), (199, 1)]))
         if directed == "interim-long" or r.chance(1, 3):
             # longer than the final header block (stale-hepos case)
             ih.append((b"X-Pad", b" ", b"p" * (final_len + r.range(0, 50)), b""))
+        hdrmax = max(hdrmax, block_len(il, ih))
         emit_block(st, il, ih)
     if directed == "align":
         # put the end of the header block a few bytes around the reader's 4096-byte buffer end
@@ -335,6 +364,7 @@ def one_wf(r, tier, directed=None):
         pad = target - st.length - final_len - len(b"X-Align: \r\n")
         if pad > 0:
             headers.append((b"X-Align", b" ", b"a" * pad, b""))
+            hdrmax = max(hdrmax, block_len(first, headers))
     emit_block(st, first, headers)
     tags.append("interim=%s" % ("0" if ninterim == 0 else "1-2" if ninterim <= 2 else "3+"))
     tags.append("nhdr=%s" % ("0" if nh == 0 else "<=6" if nh <= 6 else "<=60" if nh <= 60 else "200+"))
@@ -362,7 +392,7 @@ def one_wf(r, tier, directed=None):
         limit = explen + r.choice([0, 1])
     tags.append("limit=%s" % ("=body" if limit == explen else "body+1" if limit == explen + 1 else "above"))
     ops = st.done()
-    seg = seg_choice(r, st.length, tier)
+    seg = seg_choice(r, st.length, tier, hdrmax)
     tags.append("seg=" + ("whole" if seg == "whole" else "bytewise" if seg == "bytewise" else "sizes"))
     req = gen_request(r, want_head=ishead)
     ops = ["tag " + " ".join(tags)] + ops + ["seg " + seg]
